@@ -19,13 +19,36 @@ RULE = ("cases from rng(seed, 17, 0, i): object category = i mod 6 of pose / ver
         "distinct = fingerprint(x, mutation); non-trivial = mutation other than copy with a decided expectation.")
 REQ = ["eval:equals-never-raises", "eval:equals-expected-true", "eval:equals-expected-false", "cat:pose", "cat:vertex", "cat:odo", "cat:lm", "cat:custom", "cat:graph", "mut:copy",
        "mut:perturb_below", "mut:perturb_above", "mut:class_same_size", "mut:class_other_size", "mut:id", "mut:edge_class", "mut:estimate_size", "mut:information_shape",
-       "mut:graph_extra_element", "mut:graph_order", "mut:offset", "mut:offset_id", "mut:edge_subclass", "class:graph_multi_scale", "class:default_tol_argument_omitted", "mut:ids_container", "class:graphs_used_and_restored_before_comparison"]
+       "mut:graph_extra_element", "mut:graph_order", "mut:offset", "mut:offset_id", "mut:edge_subclass", "class:graph_multi_scale", "class:default_tol_argument_omitted", "mut:ids_container", "mut:pose_subclass", "class:graphs_used_and_restored_before_comparison"]
 PLAN = {
     "quick": {"cases": 12000, "soft_s": 60, "min_nontrivial": 3000, "require": REQ},
     "thorough": {"cases": 800000, "soft_s": 1200, "min_nontrivial": 200000, "require": REQ},
 }
 ASSUMPTIONS = ["pairs are drawn within one category (pose x pose, vertex x vertex, edge x edge, graph x graph); perturbations that carry an SE(2) angle across +-pi are excluded"]
 SAME_SIZE = {"se2": "r3", "r3": "se2"}
+
+
+class SubR2(M.PoseR2):
+    """A user subclass of a built-in pose: a different type."""
+
+
+class SubR3(M.PoseR3):
+    pass
+
+
+class SubSE2(M.PoseSE2):
+    pass
+
+
+class SubSE3(M.PoseSE3):
+    pass
+
+
+SUBPOSE = {"r2": SubR2, "r3": SubR3, "se2": SubSE2, "se3": SubSE3}
+
+
+def as_subclass_pose(p):
+    return np.array(M.fl(p), dtype=np.float64).view(SUBPOSE[M.kind(p)] if type(p) in M.KIND_OF_CLS else type(p))
 
 
 class SubOdometry(M.EdgeOdometry):
@@ -63,7 +86,22 @@ def mk_pose(rng, k):
     return gen.normalize_pose(k, p)
 
 
+def _two_ids(rng):
+    u = rng.random()
+    if u < 0.5:
+        return [3, 8]
+    base = int(rng.choice([10 ** 5, 3 * 10 ** 6, 10 ** 9, 2 ** 53, 2 ** 62, -(10 ** 7)])) + int(rng.integers(0, 1000))
+    return [base, base + int(rng.integers(1, 4))]
+
+
 def edge_spec(rng, cat, k):
+    ids2 = _two_ids(rng)
+    s = _edge_spec(rng, cat, k)
+    s["ids"] = ids2[: len(s["ids"])]
+    return s
+
+
+def _edge_spec(rng, cat, k):
     if cat == "odo":
         return {"type": "odo", "ids": [3, 8], "info": gen.spd(rng, R.CD[k], 100, True, float(10 ** rng.uniform(-3, 3))).tolist(), "est": mk_pose(rng, k), "est_kind": k}
     if cat == "lm":
@@ -170,11 +208,11 @@ def elem_case(ctx, cat, rng, tol):
     if cat == "pose":
         spec = {"kind": k, "pose": mk_pose(rng, k)}
     elif cat == "vertex":
-        spec = {"kind": k, "pose": mk_pose(rng, k), "id": int(rng.integers(-50, 50))}
+        spec = {"kind": k, "pose": mk_pose(rng, k), "id": int(rng.integers(-50, 50)) if rng.random() < 0.5 else _two_ids(rng)[0]}
     else:
         spec = edge_spec(rng, cat, k)
     x = build_obj(cat, spec)
-    muts = ["copy", "perturb", "perturb", "perturb", "class_same_size", "class_other_size"]
+    muts = ["copy", "perturb", "perturb", "perturb", "class_same_size", "class_other_size", "pose_subclass"]
     if cat != "pose":
         muts += ["id"]
     if cat in ("odo", "lm", "custom"):
@@ -229,11 +267,11 @@ def elem_case(ctx, cat, rng, tol):
         feats.update(field=field, other_class=k2)
     elif mut == "id":
         if cat == "vertex":
-            s2["id"] = spec["id"] + int(rng.choice([-1, 1, 1000]))
+            s2["id"] = spec["id"] + int(rng.choice([-1, 1, 2, 1000]))
         else:
             s2["ids"] = list(spec["ids"])
             j = int(rng.integers(len(s2["ids"])))
-            s2["ids"][j] += int(rng.choice([-1, 1, 1000]))
+            s2["ids"][j] += int(rng.choice([-1, 1, 2, 1000]))
         exp_xy = exp_yx = False
     elif mut == "n_vertex_ids":
         s2["ids"] = list(spec["ids"]) + [99]
@@ -245,6 +283,11 @@ def elem_case(ctx, cat, rng, tol):
         exp_xy = exp_yx = False
         feats.update(other=s2["type"])
     elif mut == "edge_subclass":
+        exp_xy = exp_yx = False
+    elif mut == "pose_subclass":
+        if cat == "custom" and spec.get("est_kind") not in R.KINDS:
+            ctx.skip("no pose-typed element")
+            return
         exp_xy = exp_yx = False
     elif mut == "estimate_size":
         if spec.get("est_kind") in R.KINDS:
@@ -271,6 +314,14 @@ def elem_case(ctx, cat, rng, tol):
         exp_xy = exp_yx = False
     try:
         y = subclass_instance(x) if mut == "edge_subclass" else build_obj(cat, s2)
+        if mut == "pose_subclass":
+            # the same numbers held in an instance of a user subclass of the pose class (pose itself / vertex pose / edge estimate)
+            if cat == "pose":
+                y = as_subclass_pose(y)
+            elif cat == "vertex":
+                y.pose = as_subclass_pose(y.pose)
+            else:
+                y.estimate = as_subclass_pose(y.estimate)
         if mut == "ids_container":
             # the same ids held in a tuple / numpy array instead of a list (the loader produces lists; client code is free to pass tuples)
             y.vertex_ids = tuple(y.vertex_ids) if rng.random() < 0.5 else np.array(y.vertex_ids)
